@@ -37,11 +37,11 @@ def gen_case(rng, tier):
             if ok:
                 depth += len(chosen)
         elif r < 0.45 and depth > 0:
-            n = rng.choice([1, 1, 2, None])
+            n = rng.choice([1, 1, 2, None, 0])      # (0: nothing is disabled)
             steps.append({"f": "disable", "n": n})
             depth = 0 if n is None else max(0, depth - n)
         elif r < 0.7:
-            chosen = [rng.choice(sorted(valid)) for _ in range(rng.randint(1, 2))]
+            chosen = [rng.choice(sorted(valid)) for _ in range(rng.choice([1, 1, 2, 2, 0]))]      # (0: an empty with-block)
             if rng.random() < 0.3:
                 chosen.append(rng.choice(["nosuchctx", bad["name"]]))
             ok = all(n in valid for n in chosen)
